@@ -77,9 +77,11 @@ func (r *events) Publish(payload api.EventPayload) {
 	handler := make([]eventHandlerItem, len(r.handlers))
 	copy(handler, r.handlers)
 	r.mu.Unlock()
+	verifYield("Publish.snapshot")
 
 	// Use different locks, so unpublish is possible in the event handlers
 	r.muHandle.Lock()
+	verifYield("Publish.locked")
 	// process subscribers by level
 	handlerLevels := []api.EventHandlerLevel{
 		api.EventHandlerLevelCore,
@@ -101,5 +103,6 @@ func (r *events) Publish(payload api.EventPayload) {
 			}
 		}
 	}
+	verifYield("Publish.spawned")
 	r.muHandle.Unlock()
 }
